@@ -11,13 +11,16 @@ from harness import core, defs
 META = {"title": "CLI listings show each packet once, in order, and never hang or crash"}
 
 
+APID0 = 1000          # packet j of a generated file has APID 1000 + j: a number no other field or value of these files takes
+
+
 def make_file(dirn, n, name=None, tail=b"", period=None):
     """n packets; with `period`, packet k is byte-identical to packet k mod period (idle / retransmitted packets)"""
     path = os.path.join(dirn, name or f"pk{n}{'' if period is None else '-p%d' % period}.bin")
     with open(path, "wb") as f:
         for k in range(n):
             j = k if period is None else k % period
-            f.write(defs.mk_packet(bytes([j, 0xAB]), apid=100 + j, seq=j))
+            f.write(defs.mk_packet(bytes([j, 0xAB]), apid=APID0 + j, seq=j))
         f.write(tail)
     return path
 
@@ -50,19 +53,27 @@ def run_cli(args, timeout=60):
         return None, (e.stdout or b"").decode("utf-8", "ignore") if isinstance(e.stdout, bytes) else (e.stdout or ""), True
 
 
-def listing_rows(out):
-    """APID column of the table rows: list of ints, -1 for the ellipsis row"""
+def table_lines(out):
+    """Every output line as its list of cell tokens, whatever the table style (box characters, colours and alignment are not part
+    of the property): anything that is not a letter, digit, '.', '…', '-' or '_' separates tokens."""
+    out = re.sub(r"\x1b\[[0-9;]*[A-Za-z]", "", out)
+    return [re.findall(r"[A-Za-z0-9_.…-]+", line) for line in out.splitlines()]
+
+
+def listing_rows(out, fields_of=None):
+    """Packet index per table row (-1 for the ellipsis row). A packet row is a line of 7 numeric cells; it is identified by its APID
+    cell (1000 + j) and must show exactly the 7 header fields of that packet (compared as a multiset: column order is not fixed by
+    the property). A row of 7 numbers that is no packet's header is reported as index -2."""
     rows = []
-    for line in out.splitlines():
-        cells = [c.strip() for c in re.split(r"[│┃|]", line)]
-        cells = [c for c in cells if c != ""]
-        if len(cells) == 7:
-            if cells[0] == "VER":
-                continue
-            if all(c in ("...", "…") for c in cells):
-                rows.append(-1)
-            elif all(re.fullmatch(r"\d+", c) for c in cells):
-                rows.append(int(cells[3]) - 100)
+    for toks in table_lines(out):
+        if toks and all(t in ("...", "…") for t in toks):
+            rows.append(-1)
+        elif len(toks) == 7 and all(re.fullmatch(r"\d+", t) for t in toks):
+            ids = [int(t) - APID0 for t in toks if APID0 <= int(t) < APID0 + 64]
+            if len(ids) == 1 and sorted(int(t) for t in toks) == sorted([0, 0, 0, APID0 + ids[0], 3, ids[0], 1]):
+                rows.append(ids[0])
+            else:
+                rows.append(-2)
     return rows
 
 
@@ -80,7 +91,9 @@ def run(ctx):
                 "`spp parse --packet i` (click test runner and, for termination, a child process under a time limit); rows are parsed "
                 "from the rendered table. Plus files ending in a truncated packet, an empty file, and the repository's own JPSS file. "
                 "distinct = (command, n, index).")
-    ctx.assumptions = ["rows are recognised in the rich table by their 7 numeric cells; the APID column identifies the packet"]
+    ctx.assumptions = ["rows are recognised as lines of 7 numeric cells whatever the table style; a row is identified by its APID cell (1000 + j, a "
+                       "number no other field takes) and must show that packet's 7 header fields (any column order)",
+                       "the parse command's rendering is free: of the file's APIDs exactly the requested packet's may appear in the output"]
     r = ctx.tlc_expect_ok("Cli", "Cli.cfg", coverage=True, tag="listing-and-index")
     ctx.require_actions(r, ["Frame", "RenderListing", "RenderParse"])
     rg = ctx.tlc_expect_ok("Cli", "Gen_Cli.cfg", workers=1, count=False, tag="export")
@@ -104,8 +117,8 @@ def run(ctx):
             if rc != 0 or exc is not None:
                 prob = f"exit code {rc}, exception {exc!r}"
             elif c["out"]["k"] == "no-packets":
-                if "No packets found" not in out or listing_rows(out):
-                    prob = f"empty file: output {out[:200]!r}"
+                if listing_rows(out):
+                    prob = f"empty file: rows in the output {out[:200]!r}"
             elif listing_rows(out) != want:
                 prob = f"rows {listing_rows(out)} != specification {want}"
             else:
@@ -128,12 +141,15 @@ def run(ctx):
             if rc != 0 or exc is not None or "Traceback" in out:
                 prob = f"exit code {rc}, exception {exc!r}"
             elif c["out"]["k"] == "out-of-range":
-                if "out of range" not in out:
-                    prob = f"index {i} of {n}: no out-of-range message: {out[:160]!r}"
+                # a message (wording free) and none of the file's packets
+                shown = sorted({int(t) - APID0 for toks in table_lines(out) for t in toks if re.fullmatch(r"\d+", t) and APID0 <= int(t) < APID0 + 64})
+                if not out.strip() or shown:
+                    prob = f"index {i} of {n}: expected an out-of-range message and no packet, got packets {shown}: {out[:160]!r}"
             else:
-                m = re.findall(r"'PKT_APID': (\d+)", out)
-                if m != [str(100 + i)]:
-                    prob = f"index {i} of {n}: shows APIDs {m}, expected packet {i} (APID {100 + i})"
+                # whatever the rendering: of the file's packets (APID 1000 + j), exactly packet i is shown
+                m = sorted({int(t) - APID0 for toks in table_lines(out) for t in toks if re.fullmatch(r"\d+", t) and APID0 <= int(t) < APID0 + 64})
+                if m != [i]:
+                    prob = f"index {i} of {n}: shows packets {m} (by APID {APID0} + j), expected packet {i}"
             if prob:
                 ctx.violation("C19/parse/" + ("crash" if "exception" in prob else "selection"), prob, {"cmd": "parse", "n": n, "idx": i})
     # ---- termination and robustness on files that do not end on a packet boundary / are empty (child process, time limit)
@@ -153,18 +169,23 @@ def run(ctx):
     jp = "/repo/tests/test_data/jpss/J01_G011_LZ_2021-04-09T00-00-00Z_V01.DAT1"
     if os.path.exists(jp):
         rc, out, exc = in_process(["describe-packets", jp])
-        rows = []
-        for line in out.splitlines():
-            cells = [c.strip() for c in re.split(r"[│┃|]", line) if c.strip() != ""]
-            if len(cells) == 7 and cells[0] != "VER":
-                rows.append(cells)
-        ok = rc == 0 and len(rows) == 11 and all(c in ("...", "…") for c in rows[5])
-        seqs = [int(r_[5]) for i, r_ in enumerate(rows) if i != 5] if ok else []
+        rows = [toks for toks in table_lines(out) if (len(toks) == 7 and all(re.fullmatch(r"\d+", t) for t in toks)) or
+                (toks and all(t in ("...", "…") for t in toks))]
+        # the file framed by the harness itself: header fields of the first five and the last five packets
+        raw = open(jp, "rb").read()
+        hdrs, off = [], 0
+        while off + 6 <= len(raw):
+            w0, w1, ln = int.from_bytes(raw[off:off + 2], "big"), int.from_bytes(raw[off + 2:off + 4], "big"), int.from_bytes(raw[off + 4:off + 6], "big")
+            if off + 7 + ln > len(raw):
+                break
+            hdrs.append(sorted([w0 >> 13, (w0 >> 12) & 1, (w0 >> 11) & 1, w0 & 0x7FF, w1 >> 14, w1 & 0x3FFF, ln]))
+            off += 7 + ln
+        want = [h for h in hdrs[:5]] + [None] + [h for h in hdrs[-5:]]
+        got = [None if all(t in ("...", "…") for t in r_) else sorted(int(t) for t in r_) for r_ in rows]
         ctx.traces += 1
         ctx.count(("jpss",))
-        # the first five sequence counts are consecutive, and so are the last five
-        if not ok or not all(seqs[k + 1] - seqs[k] == 1 for k in (0, 1, 2, 3)) or not all((seqs[k + 1] - seqs[k]) % 16384 == 1 for k in (5, 6, 7, 8)):
-            ctx.violation("C19/describe-packets/jpss", f"JPSS listing: exit {rc}, rows {rows[:12]}", {"file": jp})
+        if rc != 0 or exc is not None or len(hdrs) <= 10 or got != want:
+            ctx.violation("C19/describe-packets/jpss", f"JPSS listing ({len(hdrs)} packets): exit {rc}, rows {rows[:12]}; expected header fields {want}", {"file": jp})
         ctx.extra["jpss_rows"] = len(rows)
 
 
